@@ -116,6 +116,11 @@ macro_rules! typed {
 }
 
 pub fn check_pair(out: &mut Out, src: &str, c0: &Ctx, ctx_desc: String) {
+    check_pair_with(out, src, c0, ctx_desc, None)
+}
+
+/// `reused`: a tree precompiled from the same source earlier and already evaluated against other contexts
+pub fn check_pair_with(out: &mut Out, src: &str, c0: &Ctx, ctx_desc: String, reused: Option<&Node>) {
     out.begin(|| format!("{}   [{}]", src, ctx_desc));
     // the one evaluator: untyped, mutable, string level
     let mut cm = c0.clone();
@@ -142,12 +147,18 @@ pub fn check_pair(out: &mut Out, src: &str, c0: &Ctx, ctx_desc: String) {
         },
     };
     out.evals(3);
-    let tree: R<Node> = match guard(|| build_operator_tree::<DefaultNumericTypes>(src)) {
+    let fresh_tree: R<Node> = match guard(|| build_operator_tree::<DefaultNumericTypes>(src)) {
         Ok(t) => t,
         Err(p) => {
             out.violation("panic", src.to_string(), "Ok or Err".into(), api::panic_text(&p));
             return;
         },
+    };
+    // tree-level entry points run on the reused tree if there is one (it must behave like a fresh one)
+    let tree: R<&Node> = match (&fresh_tree, reused) {
+        (Ok(_), Some(t)) => Ok(t),
+        (Ok(t), None) => Ok(t),
+        (Err(e), _) => Err(e.clone()),
     };
     let outcome = match &base_mut {
         Ok(v) => format!("Ok:{:?}", crate::refmodel::value::RV::from_value(v).ty()),
@@ -169,7 +180,7 @@ pub fn check_pair(out: &mut Out, src: &str, c0: &Ctx, ctx_desc: String) {
         ck.same_ctx("eval_with_context_mut (repeat)", &cm, &c);
     }
     // precompilation fails iff every entry point returns that same error
-    if let Err(e) = &tree {
+    if let Err(e) = &fresh_tree {
         let want: R<Value> = Err(e.clone());
         ck.expect("eval_with_context_mut vs build_operator_tree error", &want, Ok(base_mut.clone()));
         ck.expect("eval_with_context vs build_operator_tree error", &want, Ok(base_imm.clone()));
@@ -208,7 +219,7 @@ pub fn check_pair(out: &mut Out, src: &str, c0: &Ctx, ctx_desc: String) {
     typed_mut!("eval_tuple_with_context_mut", proj_tuple, evalexpr::eval_tuple_with_context_mut);
     typed_mut!("eval_empty_with_context_mut", proj_empty, evalexpr::eval_empty_with_context_mut);
     // ---- tree level: precompiling and then evaluating gives the same outcome as evaluating the string
-    if let Ok(t) = &tree {
+    if let Ok(t) = tree {
         ck.expect("Node::eval", &base_free, guard(|| t.eval()));
         typed!(ck, "Node::eval_string", proj_string, &base_free, t.eval_string());
         typed!(ck, "Node::eval_int", proj_int, &base_free, t.eval_int());
@@ -255,7 +266,9 @@ pub fn check_pair(out: &mut Out, src: &str, c0: &Ctx, ctx_desc: String) {
 
 pub fn hostile_string(r: &mut Rng, max: usize) -> String {
     // char soup weighted towards operator characters, quotes, comment markers, digits
-    const SOUP: [&str; 48] = [
+    const SOUP: [&str; 66] = [
+        "\"\\u{D800}\"", "\"\\u{110000}\"", "\"\\x41\"", "\"\\u{41}\"", "\"\\u{FFFFFFFFF}\"", "\"\\0\"",
+        "\\u{D800}", "\\u{41}", "\\x41", "\\n", "\\u{110000}", "\"\\u{", "\r\n", "\r", "\u{b}", "\u{85}", "\\\"", "\"\\\\\"",
         "+", "-", "*", "/", "%", "^", "(", ")", ",", ";", "=", "!", "<", ">", "&", "|", "\"", "\\", "/*", "*/", "//",
         "\n", " ", "\t", "0", "1", "9", "e", "E", "x", ".", "a", "f", "true", "false", "math::", "str::", "len", "if",
         "ä", "😀", "\u{301}", "\u{a0}", "\u{2028}", "\u{0}", "_", "0x", "&&",
@@ -276,6 +289,8 @@ pub fn hostile_string(r: &mut Rng, max: usize) -> String {
 
 struct Pairs {
     n: u64,
+    /// recently used sources with their precompiled trees, reused under later contexts
+    recent: Vec<(String, Node)>,
 }
 
 impl Phase for Pairs {
@@ -286,6 +301,17 @@ impl Phase for Pairs {
         self.n
     }
     fn run(&mut self, _idx: u64, r: &mut Rng, out: &mut Out) {
+        if !self.recent.is_empty() && r.chance(1, 3) {
+            // an earlier source, its old tree, a new context
+            let k = r.below(self.recent.len());
+            let (src, tree) = self.recent[k].clone_pair();
+            let model = random_model(r);
+            let log = observe::new_log();
+            let c0 = api::ctx_from_model(&model, &log);
+            out.count("reused precompiled trees");
+            check_pair_with(out, &src, &c0, format!("context {}; builtins {}; functions {:?}; reused tree", model.show_vars(), if model.builtins_off { "off" } else { "on" }, model.funs.keys().collect::<Vec<_>>()), Some(tree));
+            return;
+        }
         let src = match r.below(10) {
             0..=5 => {
                 let ast = random_program(r, 6);
@@ -301,7 +327,7 @@ impl Phase for Pairs {
             },
             8 => {
                 // a value-producing snippet of each type, so that every Ok variant meets every entry point
-                r.pick(&["\"str\"", "4", "2.5", "true", "(1, 2.5, \"x\")", "()", "x = 3", "1;", "len(\"abc\")", "1/0", "nosuch(1)", "u", "5 + 1.0", "\"a\" + \"b\"", "(1,2) == (1,2)", "!true", "x0", "x1 = x0"])
+                r.pick(&["\"str\"", "4", "2.5", "true", "(1, 2.5, \"x\")", "()", "x = 3", "1;", "len(\"abc\")", "1/0", "nosuch(1)", "u", "5 + 1.0", "\"a\" + \"b\"", "(1,2) == (1,2)", "!true", "x0", "x1 = x0", "min(4, 2)", "len(\"abc\") + 1", "typeof(x)", "max(1, 3) == 3", "x", "y", "x2"])
                     .to_string()
             },
             9 if r.chance(1, 2) => {
@@ -327,6 +353,26 @@ impl Phase for Pairs {
         let log = observe::new_log();
         let c0 = api::ctx_from_model(&model, &log);
         check_pair(out, &src, &c0, format!("context {}; builtins {}", model.show_vars(), if model.builtins_off { "off" } else { "on" }));
+        // keep the tree (now evaluated once) for reuse under other contexts
+        if let Ok(Ok(t)) = guard(|| build_operator_tree::<DefaultNumericTypes>(&src)) {
+            let mut warm = c0.clone();
+            let _ = guard(|| t.eval_with_context_mut(&mut warm));
+            if self.recent.len() < 64 {
+                self.recent.push((src, t));
+            } else {
+                let k = r.below(64);
+                self.recent[k] = (src, t);
+            }
+        }
+    }
+}
+
+trait ClonePair {
+    fn clone_pair(&self) -> (String, &Node);
+}
+impl ClonePair for (String, Node) {
+    fn clone_pair(&self) -> (String, &Node) {
+        (self.0.clone(), &self.1)
     }
 }
 
@@ -342,5 +388,6 @@ pub fn selfcheck() -> Result<String, String> {
 pub fn phases(cfg: &Cfg) -> Vec<Box<dyn Phase>> {
     vec![Box::new(Pairs {
         n: cfg.n(40_000, 2_000_000),
+        recent: Vec::new(),
     })]
 }
